@@ -130,6 +130,8 @@ def replay_density(data):
 REPLAY["density"] = replay_density
 from . import c04 as _c04r   # noqa: E402
 REPLAY["cell"] = _c04r.replay_cell
+from . import c12 as _c12   # noqa: E402
+REPLAY["vec"] = _c12.replay_vectors
 
 
 def part_density(ctx):
@@ -202,7 +204,7 @@ def run(ctx):
 
     def dep_molecules(c):
         _c04.run_cell(c, _c04.Mods(), 3, [6, 1, 8], [2, 0, 1], 2, False, first=[2, 3], descending=0, tag="dependency (C04): ")
-    ctx.parallel_sections([("supercell", part_supercell), ("trigonal", part_trigonal), ("density", part_density), ("dependency: unit-cell molecules (C04)", dep_molecules)])
+    ctx.parallel_sections([("supercell", part_supercell), ("trigonal", part_trigonal), ("density", part_density), ("dependency: unit-cell molecules (C04)", dep_molecules)] + _c12.dependency_sections())
 
 
 class FakeMol:
